@@ -582,6 +582,15 @@ def _quantity(v: Any):
     return Q(float(Fraction(v)))
 
 
+def _emitted(x: float) -> str:
+    """An emitted (non-None) value: exact rational, or the name of a non-finite float (which C13 forbids)."""
+    if math.isnan(x):
+        return "nan"
+    if math.isinf(x):
+        return "inf" if x > 0 else "-inf"
+    return rat(x)
+
+
 async def _feed_and_collect(rx, senders: dict[int, Any], rounds: list[dict]) -> list:
     Sample = R()["Sample"]
     out = []
@@ -593,7 +602,7 @@ async def _feed_and_collect(rx, senders: dict[int, Any], rounds: list[dict]) -> 
             while True:  # until one (virtual) second of silence: 0 samples = dropped, >1 would be a finding
                 s = await asyncio.wait_for(rx.receive(), 1.0)
                 secs = (s.timestamp - T0).total_seconds()
-                out.append([int(secs), None if s.value is None else rat(s.value.base_value)])
+                out.append([int(secs), None if s.value is None else _emitted(s.value.base_value)])
         except asyncio.TimeoutError:
             pass
     return out
@@ -985,3 +994,105 @@ def check_cases(ctx, prop: str, cases: list[dict]) -> None:
             # the enlarged search of a broken proof / correspondence has its failing input: no need for the rest
             ctx.note(f"boosted search stopped after {min(k + CH, len(cases))} of {len(cases)} cases: failing input found")
             break
+
+
+# ======================================================================= non-finite RESULTS from finite inputs (C13)
+FLOAT_HUGE = Fraction(2) ** 1030          # an exact value beyond this cannot be a finite double (max ~ 2**1024)
+EXTREME_POOL = [1e200, -1e200, 1e308, -1e308, 1.5e154, 5e-324, -5e-324, 1e-320, 1e-200, 2.0, 1.0, -1.0, 0.5, 3.0, 1e100]
+
+NONFINITE_TEMPLATES: list[tuple[dict, list[dict[str, float]]]] = [
+    ({"kind": "string", "s": "#1 * #2"}, [{"1": 1e200, "2": 1e200}, {"1": -1e200, "2": 1e200}]),
+    ({"kind": "string", "s": "#1 / #2"}, [{"1": 1.0, "2": 5e-324}, {"1": -3.0, "2": 1e-320}]),
+    ({"kind": "string", "s": "#1 + #2"}, [{"1": 1e308, "2": 1e308}]),
+    ({"kind": "string", "s": "#1 - #2"}, [{"1": -1e308, "2": 1e308}]),
+    ({"kind": "string", "s": "#3 + #1 * #2 - #3"}, [{"1": 1e200, "2": 1e200, "3": 1.0}]),
+    ({"kind": "string", "s": "(#1 + #3) / (#2 * #2) + #3"}, [{"1": 1.0, "2": 1e-200, "3": 2.0}]),
+    ({"kind": "string", "s": "#1 * #2 * #2"}, [{"1": 3.0, "2": 1e200}]),
+    ({"kind": "ho", "tree": {"b": {"b": {"start": 1}, "o": "*", "eng": 2}, "o": "max", "eng": 3}},
+     [{"1": 1e200, "2": 1e200, "3": 1.0}]),
+    ({"kind": "ho", "tree": {"b": {"b": {"start": 1}, "o": "*", "eng": 2}, "un": "production"}},
+     [{"1": -1e200, "2": 1e200}]),
+    ({"kind": "ho", "tree": {"b": {"b": {"start": 1}, "o": "/", "const": rat(5e-324)}, "un": "consumption"}},
+     [{"1": 1.0}]),
+    ({"kind": "ho", "tree": {"b": {"b": {"start": 1}, "o": "*", "const": rat(1e200)}, "o": "*", "eng": 1}},
+     [{"1": 1e200}]),
+    ({"kind": "ho", "tree": {"b": {"start": 3}, "o": "min", "r": {"b": {"start": 1}, "o": "+", "eng": 2}}},
+     [{"1": -1e308, "2": -1e308, "3": 0.5}]),
+]
+
+
+def exact_value(a: Any, env: dict[str, Any]) -> Fraction | None:
+    """The exact rational value of the expression on finite inputs (None = undefined)."""
+    try:
+        return arith(a, {i: Fraction(env[str(i)]) for i in ast_ids(a)})
+    except Undefined:
+        return None
+
+
+def gen_nonfinite_cases(ctx, n: int) -> list[dict]:
+    """Expressions over FINITE inputs whose exact value lies beyond the range of a double (overflowing products and
+    sums, divisions by subnormals, also inside larger expressions): the float result is ±inf or NaN whatever the
+    evaluation order, so the engine must emit None.  Rounds whose exact value is within range are kept only to check
+    that a sample is emitted (an intermediate overflow is out of scope)."""
+    cases = []
+    for tpl, envs in NONFINITE_TEMPLATES:
+        for z in (False, True):
+            c = dict(tpl, z=z, nonfinite=True, rounds=[{"ts": k + 1, "env": {i: rat(v) for i, v in e.items()}}
+                                                        for k, e in enumerate(envs)])
+            if c["kind"] == "string":
+                c["zids"] = []
+            cases.append(c)
+    for i in range(n):
+        rng = ctx.subrng("nonfinite", i)
+        if rng.random() < 0.5:
+            ids = rng.sample(["1", "2", "3", "7"], rng.randint(2, 3))
+            c = {"kind": "string", "s": gen_string(rng, ids, rng.choice([1, 2])), "z": rng.random() < 0.3, "zids": []}
+        else:
+            engines = rng.sample([1, 2, 3, 4], rng.randint(2, 3))
+            c = {"kind": "ho", "tree": gen_ho(rng, engines, rng.choice([1, 2])), "z": rng.random() < 0.3}
+        a = case_ast(c)
+        ids_ = sorted(ast_ids(a))
+        rounds, huge = [], 0
+        for _try in range(40):
+            env = {str(k): rat(rng.choice(EXTREME_POOL)) for k in ids_}
+            v = exact_value(a, env)
+            if v is not None and abs(v) > FLOAT_HUGE:
+                huge += 1
+                rounds.append(env)
+            elif v is not None and len(rounds) - huge < 1 and abs(v) < Fraction(2) ** 900:
+                rounds.append(env)
+            if huge >= 3:
+                break
+        if huge:
+            c.update(nonfinite=True, rounds=[{"ts": k + 1, "env": e} for k, e in enumerate(rounds)])
+            cases.append(c)
+    return cases
+
+
+def check_nonfinite(ctx, cases: list[dict]) -> None:
+    """Real engines on the non-finite-result stream, judged by the independent oracle only; the exact-rational model
+    has no overflow, so only tokens and post-fix steps are compared with it (rounds stripped)."""
+    impl = run_real(cases)
+    for c, i in zip(cases, impl):
+        a = case_ast(c)
+        ctx.case(c, tags=[c["kind"], "nonfinite-result"], nontrivial=True)
+        if "exc" in i or "err" in i:
+            ctx.violation("the real builder/engine failed: " + str(i.get("exc") or i.get("err")), c, i)
+            continue
+        by_ts: dict[int, list] = {}
+        for ts, v in i.get("out") or []:
+            by_ts.setdefault(ts, []).append(v)
+        for rd in c["rounds"]:
+            got = by_ts.get(rd["ts"], [])
+            v = exact_value(a, rd["env"])
+            if len(got) != 1:
+                ctx.violation("total: not exactly one sample for an input timestamp", c, {"round": rd, "emitted": got})
+                break
+            if (v is None or abs(v) > FLOAT_HUGE) and got[0] is not None:
+                ctx.violation("none-iff: the result is not finite (exact value beyond the range of a double, from finite "
+                              "inputs) but a value was emitted instead of None", c,
+                              {"round": rd, "emitted": got[0], "expected": None,
+                               "exact_value_log2": None if v is None else abs(v).numerator.bit_length() - abs(v).denominator.bit_length()})
+                break
+    ctx.compare("Formula", [dict(c, rounds=[]) for c in cases], [dict(i, out=[]) if "out" in i else i for i in impl],
+                what="tokens / postfix steps of the non-finite-result stream")
